@@ -12,18 +12,9 @@ From HostdFormation Require Import Model.
 From HostdFormation.gen Require Import FormationGen.
 Local Open Scope N_scope.
 
-Lemma wsub_sub : forall a b, b <= a -> a < two64 -> wsub a b = a - b.
-Proof.
-  intros a b Hb Ha. unfold wsub. assert (Hp : 0 < two64) by reflexivity.
-  rewrite (N.mod_small b) by lia.
-  replace (a + two64 - b) with ((a - b) + 1 * two64) by lia.
-  rewrite N.mod_add by lia. apply N.mod_small; lia.
-Qed.
-
 Ltac equiv_f :=
   unfold renewal_std;
-  first [ solve [unfold_common; split_all]
-        | solve [unfold_common; unfold_accessors; split_all] ].
+  solve [unfold_common; unfold_accessors; split_all].
 
 Lemma validateContractFormation_eq : forall fc uhexp height s,
   V2.validateContractFormation fc uhexp height s = validate_formation fc uhexp height s.
